@@ -171,7 +171,12 @@ Definition check_case (x : case) : list string :=
       let act := sort_sn (active nodes) in
       let s0 := init_sched e daemons nodes tmpls in
       let '(_, steps, _) := pass c e (hints_of o) daemons nodes tmpls pods in
-      let '(replayable, holds) := replay c s0 (sort_q pods) o in
+      (* order of placement: the model's (a pod may fail, be pushed back and succeed in a later round); pods the model
+         did not place follow in queue order *)
+      let placed_keys := map (fun st => p_key (st_pod st)) steps in
+      let in_order := flat_map (fun k => filter (fun x => String.eqb (p_key (q_pod x)) k) pods) placed_keys in
+      let others := filter (fun x => negb (existsb (String.eqb (p_key (q_pod x))) placed_keys)) (sort_q pods) in
+      let '(replayable, holds) := replay c s0 (in_order ++ others) o in
       let ds := prep_daemons (match tmpls with [] => false | _ => true end) daemons in
       tag (list_eqb xo_eqb (map (view_of e ds) act) views) "corr:state-node-view" ++
       tag (steps_match steps o) "corr:Scheduler.Solve-targets" ++
